@@ -127,7 +127,7 @@ def digest(f):
                 out.setdefault("idsets", []).append((f.unit, name, c["l"]))
             if cal in AMBIENT and name not in AMBIENT:
                 out["ambient"].append((f.unit, name, cal, c["l"]))
-            if cal == "lisort" and len(c["c"]) >= 5:
+            if cal in ("lisort", "qsort") and len(c["c"]) >= 5:          # both take (base, n, size, comparator)
                 cmpf = strip(c["c"][4])
                 out["sorts"].append((f.unit, name, cmpf["n"] if cmpf is not None and cmpf["k"] == "DeclRefExpr" else None, c["l"]))
     return out
@@ -487,7 +487,7 @@ def run(tier, only=None):
             where = "%s:%d (%s)" % (unit, line, func)
             key = "comparator:%s" % cmpf
             if cmpf is None or cmpf not in funcs:
-                rep.violation("D2", "comparator:%s:%s" % (unit, func), where, "the comparator passed to lisort could not be resolved to a function")
+                rep.violation("D2", "comparator:%s:%s" % (unit, func), where, "the comparator passed to the sort routine could not be resolved to a function")
                 continue
             seen, frontier, bad = {cmpf}, [cmpf], []
             for depth in range(3):
